@@ -120,3 +120,34 @@ pub fn run(t: &mut Toks) -> String {
     }
     out
 }
+
+// applyb <strip> <dir 0F 1R> <fuzz> <hexfile | "=" (empty) | "-" (absent)> <hexpatch>
+//   parse the patch text, apply its first file patch to the file given as bytes, print the report and
+//   the resulting bytes:  OK d<deleted> <hex> ok.. (reports) | ERR <kind> | NOT-ONE-PATCH
+pub fn run_applyb(t: &mut Toks) -> String {
+    use libpatch::patch::unified::parser::parse_patch;
+    let strip = t.uint();
+    let dir = if t.uint() == 0 { PatchDirection::Forward } else { PatchDirection::Revert };
+    let fuzz = t.uint();
+    let fw = t.word();
+    let file: Option<Vec<u8>> = match fw {
+        "-" => None,
+        "=" => Some(Vec::new()),
+        w => Some((0..w.len() / 2).map(|i| u8::from_str_radix(&w[2 * i..2 * i + 2], 16).expect("hex")).collect()),
+    };
+    let patch = t.hex();
+    let p = match parse_patch(&patch, strip, false) {
+        Ok(p) => p,
+        Err(e) => return crate::l2::err_kind(&e),
+    };
+    if p.file_patches.len() != 1 { return "NOT-ONE-PATCH".to_string(); }
+    let fp = &p.file_patches[0];
+    let mut mf = match &file {
+        Some(bytes) => ModifiedFile::new(bytes, true, None),
+        None => ModifiedFile::new_non_existent(),
+    };
+    let r = fp.apply(&mut mf, dir, fuzz, &AnalysisSet::default(), &fn_analysis_note_noop);
+    let mut out = Vec::new();
+    for l in &mf.content { out.extend_from_slice(l); }
+    format!("OK d{} {} {}", mf.deleted as u8, crate::hex(&out), show_report(&r))
+}
